@@ -67,19 +67,22 @@ theorem inv_rec_spawn {cfg : Cfg} {s : St} {d : Disk} (h : Inv cfg s d) {r : Rec
   have hbc := early_beforeCommit hpc
   have hnr : ∀ m, j'.pc ≠ .rotRemove m := by
     intro m hm; rw [hm] at hpc; cases hpc
+  have hl : s.limbo = none := hrec.idle.2.2.2
   have hfd : s.manifestFd = d.current := by
-    have := hrec.mfd; unfold MfdOK at this; rw [hjob] at this; exact this
+    have := hrec.mfd; unfold MfdOK at this; rw [hjob] at this
+    exact this.resolve_right (fun hx => by have := hx.1; rw [hl] at this; cases this)
   have hview := hrec.view hnc
   have hsett : Settled cfg { s with nextFile := nf', job := some j' } d
-      (Mirror { s with nextFile := nf', job := some j' }) := by
+      (MirrorL { s with nextFile := nf', job := some j' }) := by
     unfold Settled at hview ⊢
-    exact hview.imp (fun mf1 hmf1 => ⟨hmf1.1, hmf1.2.imp (fun v1 hv1 => hv1.1)⟩)
+    exact hview.imp (fun mf1 hmf1 => ⟨hmf1.1, hmf1.2.imp (fun v1 hv1 =>
+      (MirrorL.of_none (s := { s with nextFile := nf', job := some j' }) hl).2 hv1.1)⟩)
   constructor
   · exact h.disk
   · exact h.mm
   · intro _
     exact hb.of_same rfl (seqHi_le_of_not_window (not_trWindow_of_nojob hjob)
-      (not_trWindow_of_bc (j := j') rfl hbc) (Nat.le_refl _)) hnf0 (fun hr' => by
+      (not_trWindow_of_bc (j := j') rfl hbc hl) (Nat.le_refl _)) hnf0 (fun hr' => by
       have : s.phase = .running := hr'
       rw [hph] at this; cases this)
   · intro hr'
@@ -132,7 +135,7 @@ theorem inv_rec_spawn {cfg : Cfg} {s : St} {d : Disk} (h : Inv cfg s d) {r : Rec
       refine ⟨fun o ho => ?_, fun n hn => Nat.le_trans hbk (hmkf n hn)⟩
       rw [houts] at ho
       rw [(f2 o ho).1]
-      exact hbk
+      exact Or.inl hbk
     · rw [holds_iff] at he
       obtain ⟨e, hee, hsh⟩ := he
       rw [hee]
